@@ -27,31 +27,45 @@ def handle (op : String) (req : Json) : R Json := do
     if edges.length ≠ hist.length + 1 then throw "edges/hist length mismatch"
     if hist.length < 2 then throw "need at least two bins"
     let cs := centres edges
-    let mechN := critListN hist cs
+    -- the code's criterion: formed from the centres rescaled by 2^-exponent
+    let scs := scaledCentres edges
+    let mechN := critListN hist scs
     let idx := argmaxN mechN
+    let mechU := critListN hist cs
     let guard := decide (1 ≤ hist.getD 0 0) && decide (1 ≤ hist.getD (hist.length - 1) 0)
     let spec := specCritList hist cs
-    let (bi, bv) := bruteBest spec
+    let (bi, _) := bruteBest spec
+    -- what travels back is in units of 2^exponent (criterion: 4^exponent): numbers of ordinary size whatever the
+    -- scale of the data; `specCritList_scale`: this is the specification on the rescaled centres
+    let unit := pow2 (-(scaleExp edges))
+    let specU := spec.map (unit ^ 2 * ·)
+    let bv := specU.getD bi 0
     -- exact difference of the class means at the best cut (for the rounding allowance)
     let h : List Rat := hist.map (fun (k : Nat) => (k : Rat))
-    let hc := List.zipWith (· * ·) h cs
+    let hc := List.zipWith (· * ·) h scs
     let du := sumR (hc.take (bi + 1)) / sumR (h.take (bi + 1)) - sumR (hc.drop (bi + 1)) / sumR (h.drop (bi + 1))
     let nanAt := mechN.findIdx (·.isNone)
     pure (jObj [
       ("index", jNat idx),
-      ("threshold", jRat (otsuHistN hist edges)),
+      ("threshold", jRat (otsuHistS hist edges)),
+      ("scale_exp", jInt (scaleExp edges)),
+      ("unscaled_index", jNat (argmaxN mechU)),
+      ("unscaled_threshold", jRat (otsuHistN hist edges)),
+      ("scaled_centres_below_one", jBool (scs.all (fun c => decide (absQ c < 1)))),
       ("centres", jList jRat cs),
       ("guard", jBool guard),
       ("first_nan", if nanAt < mechN.length then jNat nanAt else Json.null),
       ("nan_count", jNat (mechN.filter (·.isNone)).length),
       ("class_start", jList jNat ((List.range (hist.length - 1)).map (classStart hist))),
-      ("spec_crit", jList jRat spec),
+      ("spec_crit", jList jRat specU),
+      ("spec_units_agree", jBool (specU == specCritList hist scs)),
+      ("outer_scaled", jRat (unit * outerMag edges)),
       ("spec_best_index", jNat bi),
       ("spec_best", jRat bv),
       ("spec_best_du", jRat du),
-      ("mech_is_spec", jBool (mechN == spec.map some)),
+      ("mech_is_spec", jBool (mechU == spec.map some && mechN == (specCritList hist scs).map some)),
       ("mech_zero_div_is_spec", jBool (critList hist cs == spec)),
-      ("model_index_is_best", jBool (spec.getD idx 0 == bv))])
+      ("model_index_is_best", jBool (specU.getD idx 0 == bv))])
   | "c15.data" =>
     -- every value twice: the bit pattern of the double (what the Float model computes with) and its exact value
     -- (null = NaN), so that `f64ToRat` itself is checked against the harness's exact conversion
@@ -96,7 +110,7 @@ def handle (op : String) (req : Json) : R Json := do
               ("first_edge_is_min", jBool (er.getD 0 0 == minL kept)),
               ("last_edge_is_max", jBool (er.getD n 0 == maxL kept)),
               ("float_compare_is_exact_compare", jBool fcmp),
-              ("threshold", jRat (otsuHistN hist er))]
+              ("threshold", jRat (otsuHistS hist er))]
     -- `x[~np.isnan(x)]` on the doubles, then the histogram; and the histogram of the array as given
     let np := mirror (maskSelect fs (fs.map (fun f => !f.isNaN)))
     let npRaw := if fs.any (·.isNaN) then mirror fs else Json.null
